@@ -116,7 +116,16 @@ class BuildError(Exception):
     pass
 
 
+import threading
+_BUILD_LOCK = threading.RLock()
+
+
 def build_impl(variant="default", with_cli=False):
+    with _BUILD_LOCK:
+        return _build_impl(variant, with_cli)
+
+
+def _build_impl(variant="default", with_cli=False):
     """(re)build libprimesieve.a (and optionally the CLI) from REPO's working tree.
     Cached by a hash over src/ and include/ so an edit to the sources always rebuilds."""
     flags = VARIANTS[variant]
@@ -167,6 +176,11 @@ def cli_path(variant="default"):
 
 
 def build_probe(name, variant="default", extra_flags=()):
+    with _BUILD_LOCK:
+        return _build_probe(name, variant, extra_flags)
+
+
+def _build_probe(name, variant="default", extra_flags=()):
     """compile harness/cpp/<name>.cpp against the implementation built from the working tree"""
     lib = build_impl(variant)
     src = os.path.join(ROOT, "harness", "cpp", name + ".cpp")
